@@ -25,3 +25,12 @@ func init() {
 		Quick:    tierSpec{Checks: 60000, Shards: 12, Timeout: 150},
 		Thorough: tierSpec{Checks: 3000000, Shards: 16, Timeout: 840}})
 }
+
+func init() {
+	reg(&propSpec{ID: "C02",
+		Rule: "cases: rules-valid event streams from the G-EV grammar with strings / resource IDs / custom text / comments over a deliberately nasty Unicode alphabet (controls, delimiters, nbsp, soft hyphen, combining marks, bidi and line separators, astral, noncharacters), comments at every grammar-allowed position, all numeric edge values and all time-zone forms (lat/long at every hundredth); non-trivial = as C01 or a string leaf needing an escape or a comment; distinct = FNV-64 of the serialised event list",
+		Assumptions: []string{"equivalence per DESIGN 3.2, padding dropped, comments compared by kind and text, NaN elements of float arrays by kind only",
+			"known-finding regions are excluded by construction and counted in excluded_by_known_finding"},
+		Quick:    tierSpec{Checks: 40000, Shards: 16, Timeout: 150},
+		Thorough: tierSpec{Checks: 1000000, Shards: 16, Timeout: 840}})
+}
